@@ -36,6 +36,8 @@ MUTANTS = [
       "        if sub_events:\n            e.th_info = handle_thd_data(parser, sub_events)", "        e.th_info = handle_thd_data(parser, sub_events)", "R1"),
     F("C07", "vmfault __str__ uses type without the result test", MA,
       "        if self.result == 0:\n            ret += f', type: {self.fault_type.name}'", "        if True:\n            ret += f', type: {self.fault_type.name}'", "R1"),
+    F("C07", "process name indexed without .get in the line builder", "pykdebugparser.py",
+      "        process_name = self.pids_names.get(pid, '')\n        return f'{process_name}({pid})'", "        process_name = self.pids_names[pid] if pid != -1 else ''\n        return f'{process_name}({pid})'", "R6"),
     N("C07", "try/except instead of length test", B, "    path2 = nodes[1].path if len(nodes) > 1 else ''\n    return BscRenameat(",
       "    try:\n        path2 = nodes[1].path\n    except IndexError:\n        path2 = ''\n    return BscRenameat("),
     N("C07", "membership test instead of .get", DY, "parser.global_strings.get(args[2], '')", "(parser.global_strings[args[2]] if args[2] in parser.global_strings else '')"),
